@@ -217,6 +217,18 @@ func runFR(c *Ctx, s *Sink) {
 						}
 					}
 				}
+				// FR-hi: the high bound is the end of the hit plus its margin, not the (clipped) low bound plus a length:
+				// once the low bound is clipped to the start of the sequence or of the window the fragment would slide to the right
+				for _, st2 := range list[:i] {
+					if a2, isA := st2.(*ast.AssignStmt); isA && len(a2.Lhs) == 1 && len(a2.Rhs) == 1 && rootObj(info, a2.Lhs[0]) == hi && a2.Pos() < slPos {
+						if id, isI := a2.Lhs[0].(*ast.Ident); !isI || info.ObjectOf(id) != hi {
+							continue
+						}
+						if mentionsVar(info, a2.Rhs[0], lo) {
+							problems = append(problems, "the high bound of the fragment is computed from its low bound ("+types.ExprString(a2.Rhs[0])+"), which has been clipped to the start of the sequence or of the window: the fragment of a hit truncated by that start slides to the right and reaches the next hit — CCAGHCCTTAGH, 4 errors: the two hits FilterBestMatch keeps, [-4 8 4] and [16 28 3], are both re-aligned onto [18 28 3]; the same occurrence is reported twice and the truncated one is lost")
+						}
+					}
+				}
 				if !clampOK(hi, "min") {
 					problems = append(problems, "the high bound of the fragment is not clamped with min(·, Len()) before slicing")
 				}
